@@ -5,6 +5,10 @@ HERE = os.path.dirname(os.path.abspath(__file__))
 ALL = ["C%02d" % i for i in range(1, 21)]
 
 CHECKS = {
+ "C18": dict(level="exploration", design="DESIGN.md 3/C18",
+   text="runtime monitor on the real binary's console port: data seeded in 4 namespaces with unique markers; restricted users for whitelist {all, none, A, AB, default} x blacklist {all, none, A, B} (+ disabled groups via transfer import) x roles; 65 endpoint operations of both console API versions x namespace spellings x paged walks; for a disallowed namespace the response must be a refusal, no marker may leak and the admin-read fingerprint must be unchanged; positive controls on allowed namespaces",
+   note="endpoints without a working positive control are listed, not counted; subscriber listings and transfer import are not swept",
+   technique="runtime black-box monitoring of the real server (marker leak detection + state fingerprint + positive controls)"),
  "C20": dict(level="exploration", design="DESIGN.md 3/C20",
    text="differential runtime monitor: the repository's stream readers are run on ~10^6 (quick) / ~10^7 (thorough) seeded record streams x chunk partitions and compared with an independent reference decoder; short streams get every 2-chunk (tiny ones every 3-chunk) partition",
    note="sampled input space (exhaustive only where stated); trusts the 30-line reference decoder in harness/src/c20.rs",
